@@ -5,11 +5,11 @@ From Pybtex Require Import Base.Prelude Base.PyChar Base.PyStr Model.RtTypes Mod
 Local Open Scope N_scope.
 
 Inductive wstate :=
-| WText | WTagStart | WOpen (acc : str) | WAttrs (name : str) | WClose (acc : str) | WEnt.
+| WText | WTagStart | WOpen (acc : str) | WAttrs (name : str) | WAttrQ (name : str) | WClose (acc : str) | WEnt.
 
 (* a reader that keeps the stack of open elements.  None: a bare > or a < inside a tag, an element
    name that is not alphanumeric, a closing tag that does not match the innermost open element,
-   a malformed entity *)
+   a malformed entity, a < or & inside a tag; a double quote toggles "inside an attribute value" *)
 Fixpoint wf_scan (stk : list str) (st : wstate) (s : str) : option (list str * wstate) :=
   match s with
   | [] => Some (stk, st)
@@ -27,9 +27,13 @@ Fixpoint wf_scan (stk : list str) (st : wstate) (s : str) : option (list str * w
       if c =? c_gt then wf_scan (rev acc :: stk) WText r
       else if c =? c_space then wf_scan stk (WAttrs (rev acc)) r
       else if is_alnum c then wf_scan stk (WOpen (c :: acc)) r else None
-    | WAttrs name =>
+    | WAttrs name =>       (* between attributes *)
       if c =? c_gt then wf_scan (name :: stk) WText r
-      else if c =? c_lt then None else wf_scan stk (WAttrs name) r
+      else if c =? c_quote then wf_scan stk (WAttrQ name) r
+      else if (c =? c_lt) || (c =? c_amp) then None else wf_scan stk (WAttrs name) r
+    | WAttrQ name =>       (* inside a double-quoted attribute value *)
+      if c =? c_quote then wf_scan stk (WAttrs name) r
+      else if (c =? c_lt) || (c =? c_amp) then None else wf_scan stk (WAttrQ name) r
     | WClose acc =>
       if c =? c_gt then
         match stk with
@@ -62,7 +66,9 @@ Proof.
   - destruct (c =? c_lt); [apply IH|]. destruct (c =? c_amp); [apply IH|]. destruct (c =? c_gt); [reflexivity|apply IH].
   - destruct (c =? 47); [apply IH|]. destruct (is_alnum c); [apply IH|reflexivity].
   - destruct (c =? c_gt); [apply IH|]. destruct (c =? c_space); [apply IH|]. destruct (is_alnum c); [apply IH|reflexivity].
-  - destruct (c =? c_gt); [apply IH|]. destruct (c =? c_lt); [reflexivity|apply IH].
+  - destruct (c =? c_gt); [apply IH|]. destruct (c =? c_quote); [apply IH|].
+    destruct ((c =? c_lt) || (c =? c_amp)); [reflexivity|apply IH].
+  - destruct (c =? c_quote); [apply IH|]. destruct ((c =? c_lt) || (c =? c_amp)); [reflexivity|apply IH].
   - destruct (c =? c_gt).
     + destruct stk as [|top stk']; [reflexivity|]. destruct (str_eqb top (rev acc)); [apply IH|reflexivity].
     + destruct (is_alnum c); [apply IH|reflexivity].
@@ -82,7 +88,10 @@ Proof.
     + destruct (c =? c_gt); [apply (IH (rev acc :: stk)); exact H|].
       destruct (c =? c_space); [apply IH; exact H|]. destruct (is_alnum c); [apply IH; exact H|discriminate].
     + destruct (c =? c_gt); [apply (IH (name :: stk)); exact H|].
-      destruct (c =? c_lt); [discriminate|apply IH; exact H].
+      destruct (c =? c_quote); [apply IH; exact H|].
+      destruct ((c =? c_lt) || (c =? c_amp)); [discriminate|apply IH; exact H].
+    + destruct (c =? c_quote); [apply IH; exact H|].
+      destruct ((c =? c_lt) || (c =? c_amp)); [discriminate|apply IH; exact H].
     + destruct (c =? c_gt).
       * destruct stk as [|top stk0]; [discriminate|]. cbn [app].
         destruct (str_eqb top (rev acc)); [apply IH; exact H|discriminate].
@@ -148,14 +157,44 @@ Proof.
     apply IH. exact H2.
 Qed.
 
-Lemma scan_attrs body : forall stk name r, no_angle body = true ->
-  wf_scan stk (WAttrs name) (body ++ c_gt :: r) = wf_scan (name :: stk) WText r.
+(* attrs_ok a: a is a complete run of attributes (read between attributes, ends between attributes) *)
+Definition attrs_ok (a : str) : Prop :=
+  forall stk name r, wf_scan stk (WAttrs name) (a ++ r) = wf_scan stk (WAttrs name) r.
+
+Lemma attrs_ok_app a b : attrs_ok a -> attrs_ok b -> attrs_ok (a ++ b).
+Proof. intros Ha Hb stk name r. rewrite <- app_assoc, Ha, Hb. reflexivity. Qed.
+
+Definition attr_plain (s : str) : bool :=
+  forallb (fun c => negb (c =? c_gt) && negb (c =? c_quote) && negb (c =? c_lt) && negb (c =? c_amp)) s.
+
+Lemma attrs_ok_plain s : attr_plain s = true -> attrs_ok s.
 Proof.
-  induction body as [|c body IH]; intros stk name r H.
-  - cbn [app wf_scan]. change (c_gt =? c_gt) with true. reflexivity.
-  - cbn [no_angle forallb] in H. apply andb_prop in H as [H1 H2]. apply andb_prop in H1 as [Hlt Hgt].
-    cbn [app wf_scan]. destruct (c =? c_gt); [discriminate|]. destruct (c =? c_lt); [discriminate|].
-    apply IH. exact H2.
+  induction s as [|c s IH]; intros H stk name r; [reflexivity|].
+  cbn [attr_plain forallb] in H. apply andb_prop in H as [H1 H2].
+  apply andb_prop in H1 as [H1 Ha]. apply andb_prop in H1 as [H1 Hl]. apply andb_prop in H1 as [Hg Hq].
+  apply negb_true_iff in Hg, Hq, Hl, Ha.
+  cbn [app wf_scan]. rewrite Hg, Hq, Hl, Ha. cbn [orb]. apply IH. exact H2.
+Qed.
+
+(* an ordinary URL (and any attribute value the code emits): no double quote, no <, no & *)
+Definition url_ok (u : str) : bool :=
+  forallb (fun c => negb (c =? c_quote) && negb (c =? c_lt) && negb (c =? c_amp)) u.
+
+Lemma scan_quoted u : forall stk name r, url_ok u = true ->
+  wf_scan stk (WAttrQ name) (u ++ c_quote :: r) = wf_scan stk (WAttrs name) r.
+Proof.
+  induction u as [|c u IH]; intros stk name r H.
+  - cbn [app wf_scan]. change (c_quote =? c_quote) with true. reflexivity.
+  - cbn [url_ok forallb] in H. apply andb_prop in H as [H1 H2].
+    apply andb_prop in H1 as [H1 Ha]. apply andb_prop in H1 as [Hq Hl].
+    apply negb_true_iff in Hq, Hl, Ha.
+    cbn [app wf_scan]. rewrite Hq, Hl, Ha. cbn [orb]. apply IH. exact H2.
+Qed.
+
+Lemma attrs_ok_quoted u : url_ok u = true -> attrs_ok ([c_quote] ++ u ++ [c_quote]).
+Proof.
+  intros H stk name r. cbn [app wf_scan]. change (c_quote =? c_gt) with false. change (c_quote =? c_quote) with true.
+  cbv iota. rewrite <- app_assoc. cbn [app]. apply scan_quoted. exact H.
 Qed.
 
 (* <n> x </n> around a well-formed x *)
@@ -176,7 +215,7 @@ Qed.
 
 (* <name attrs> x </name> for a fixed alphanumeric one-word name given as a literal *)
 Lemma wellformed_attr_element (name attrs x : str) :
-  xml_name name = true -> no_angle attrs = true -> wellformed x ->
+  xml_name name = true -> attrs_ok attrs -> wellformed x ->
   wellformed ([c_lt] ++ name ++ [c_space] ++ attrs ++ [c_gt] ++ x ++ [c_lt; 47] ++ name ++ [c_gt]).
 Proof.
   unfold xml_name. intros Hn Ha Hx. apply andb_prop in Hn as [Hne Hal].
@@ -192,7 +231,7 @@ Proof.
     - cbn [forallb] in H. apply andb_prop in H as [H1 H2]. destruct (alnum_not c H1) as [E1 [E2 _]].
       cbn [app wf_scan]. rewrite E1, E2, H1, IH by exact H2. cbn [rev]. rewrite <- app_assoc. reflexivity. }
   rewrite (Hopen n' [c0] [] _ Hal). cbn [rev app].
-  rewrite (scan_attrs attrs [] (c0 :: n')) by exact Ha.
+  rewrite (Ha [] (c0 :: n') _). cbn [wf_scan]. change (c_gt =? c_gt) with true. cbv iota.
   rewrite wf_app, (wellformed_at x _ Hx).
   cbn [app wf_scan]. change (c_lt =? c_lt) with true. cbv iota. change (47 =? 47) with true. cbv iota.
   rewrite Egt, H0.
@@ -200,13 +239,13 @@ Proof.
 Qed.
 
 (* ---- the tree ---- *)
-(* tag names are XML names, URLs contain no angle bracket *)
+(* tag names are XML names; URLs are ordinary: no double quote, no <, no & *)
 Fixpoint wf_names (t : rt) : bool :=
   match t with
   | RStr _ | RSym _ => true
   | RText ps | RProt ps => forallb wf_names ps
   | RTag n ps => xml_name n && forallb wf_names ps
-  | RHRef u _ ps => no_angle u && forallb wf_names ps
+  | RHRef u _ ps => url_ok u && forallb wf_names ps
   end.
 Definition html_symbols_wf (T : tables) : bool := forallb (fun p => wellformed_b (snd p)) (t_symbols T).
 
@@ -221,20 +260,29 @@ Proof.
   apply wellformed_element; assumption.
 Qed.
 
-Lemma html_href_wf u e x : no_angle u = true -> wellformed x -> wellformed (html_href u x e).
+Lemma html_href_wf u e x : url_ok u = true -> wellformed x -> wellformed (html_href u x e).
 Proof.
   intros Hu Hx. unfold html_href. destruct (is_empty x); [apply wellformed_nil|].
   set (target := if e then _ else _).
-  assert (Ht : no_angle target = true) by (destruct e; reflexivity).
-  pose proof (wellformed_attr_element [97] ((lit "href=""") ++ u ++ [c_quote] ++ target) x eq_refl) as W.
-  rewrite !no_angle_app, Hu, Ht in W. specialize (W eq_refl Hx).
-  cbn [app] in W |- *. rewrite <- !app_assoc in W. cbn [app] in W. exact W.
+  assert (Ht : attrs_ok target).
+  { destruct e; subst target.
+    - apply (attrs_ok_app (lit " target=") ([c_quote] ++ (lit "_blank") ++ [c_quote]));
+        [apply attrs_ok_plain; reflexivity|apply attrs_ok_quoted; reflexivity].
+    - intros stk name r. reflexivity. }
+  assert (Ha : attrs_ok ((lit "href=") ++ ([c_quote] ++ u ++ [c_quote]) ++ target)).
+  { apply attrs_ok_app; [apply attrs_ok_plain; reflexivity|].
+    apply attrs_ok_app; [apply attrs_ok_quoted; exact Hu|exact Ht]. }
+  pose proof (wellformed_attr_element [97] _ x eq_refl Ha Hx) as W.
+  match type of W with wellformed ?A => match goal with |- wellformed ?B => replace B with A; [exact W|] end end.
+  repeat rewrite <- app_assoc. cbn [app]. repeat rewrite <- app_assoc. reflexivity.
 Qed.
 
 Lemma html_protected_wf x : wellformed x -> wellformed (format_protected BHtml x).
 Proof.
   intros Hx. cbn [format_protected].
-  pose proof (wellformed_attr_element (lit "span") (lit "class=""bibtex-protected""") x eq_refl eq_refl Hx) as W.
+  assert (Ha : attrs_ok ((lit "class=") ++ ([c_quote] ++ (lit "bibtex-protected") ++ [c_quote]))).
+  { apply attrs_ok_app; [apply attrs_ok_plain; reflexivity|apply attrs_ok_quoted; reflexivity]. }
+  pose proof (wellformed_attr_element (lit "span") _ x eq_refl Ha Hx) as W.
   cbn [app] in W |- *. exact W.
 Qed.
 
@@ -272,3 +320,12 @@ Proof.
 Qed.
 
 End HtmlWf.
+
+(* the hypothesis on URLs is exactly what is needed: a double quote, a < or an & in a URL (the
+   code inserts URLs unescaped) breaks well-formedness *)
+Lemma html_url_refuted_holds enc T c : In c [c_quote; c_lt; c_amp] ->
+  exists out, render enc T BHtml (RHRef [c] false [RStr [120]]) = Ok out /\ ~ wellformed out.
+Proof.
+  intros H. cbn [In] in H. destruct H as [<-|[<-|[<-|[]]]];
+    (eexists; split; [reflexivity|]; intros W; unfold wellformed in W; vm_compute in W; discriminate).
+Qed.
